@@ -6,7 +6,9 @@
 From NextestModel Require Import Base.Str Model.Clocks Model.UnitTimers.
 Open Scope N_scope.
 
-Inductive reaction := OnTermExit | OnTermIgnore | OnTermLate (d : N).
+(* OnTermLate d: exits with a failure status d after the signal; OnTermLateOk d: exits with status 0
+   d after the signal (a graceful shutdown handler) *)
+Inductive reaction := OnTermExit | OnTermIgnore | OnTermLate (d : N) | OnTermLateOk (d : N).
 
 Record tbeh := {
   b_dur : N;            (* natural running time until it exits by itself *)
@@ -58,6 +60,10 @@ Definition react (b : tbeh) (s : sim) (sg : usig) : sim :=
           | OnTermLate d =>
               {| now := now s; su := su s; left := Some (N.min l d); cstopped := cstopped s;
                  dead_ok := if d <? l then false else dead_ok s;
+                 dead_seen := dead_seen s; hold_left := hold_left s; reqs := reqs s; trace := trace s |}
+          | OnTermLateOk d =>
+              {| now := now s; su := su s; left := Some (N.min l d); cstopped := cstopped s;
+                 dead_ok := if d <? l then true else dead_ok s;
                  dead_seen := dead_seen s; hold_left := hold_left s; reqs := reqs s; trace := trace s |}
           end
       end
